@@ -13,6 +13,7 @@ package diff
 //@ extern bytes.Equal(a, b) (r)
 //@   pure
 //@   ensures r == eqBytes(a, b)
+//@   ensures r == (sid(a) == sid(b))
 //@ extern strings.SplitAfter(s, sep) (r)
 //@   modifies new H_Str
 //@   ensures r != nil && fresh(r) && len(r) >= 1
@@ -55,9 +56,13 @@ package diff
 // sides at every loop head; every hunk header printed carries the 1-based start of its
 // body (0-based for an empty side) and the number of old/new lines put into the body;
 // hunks are emitted in increasing, non-overlapping order on both sides.
+// (The first requires clause is an instance of what content identity means: two byte strings
+// have the same content id exactly when they are equal byte for byte; it lets the comparison
+// of the two texts be written as bytes.Equal or as a string comparison.)
 //@ ghost var gXrow (Array Int Str)
 //@ ghost var gYrow (Array Int Str)
 //@ func Diff
+//@   requires (sid(old) == sid(new)) == eqBytes(old, new)
 //@   at call fmt.Fprintf#3: ghost gHunkEndX = 0; gHunkEndY = 0
 //@   at call diff.tgs#1: ghost_after gXrow = rowOf(x); gYrow = rowOf(y)
 //@   at call fmt.Fprintf#4: requires len(a) == 4 && unbox(at(a,lo(a))) == chunk.x && unbox(at(a,lo(a)+1)) == count.x && unbox(at(a,lo(a)+2)) == chunk.y && unbox(at(a,lo(a)+3)) == count.y
